@@ -21,7 +21,7 @@
 //     wpd / wid separate derivative calls, wdp / wdi combined call   (only what the model advertises)
 //     wpd2 / wid2 / eg the same calls writing into buffers of the right size that hold old values (777)
 //     s0 weighted output sum, fp / fi: S(theta + h e_i), S(theta - h e_i), S(theta + 2h e_i), S(theta - 2h e_i) for every parameter / input entry (h = 2^-17)
-//     kp / ki: two kink indicators per probe, taken over all output entries (see Probe)
+//     kp / ki: two kink indicators per probe, taken over all entries of the responses of EVERY layer (see Probe, evalAll); osc their scale
 //     ft features (1 parameter derivative, 4 input derivative)   dim B,nin,nout
 #include <cstdio>
 #include <cmath>
@@ -152,6 +152,19 @@ static double wsum(RealMatrix const& out, RealMatrix const& C) {
 	double s = 0; for (std::size_t i = 0; i < out.size1(); ++i) for (std::size_t j = 0; j < out.size2(); ++j) s += C(i, j) * out(i, j); return s;
 }
 
+// evaluates with state; `all` = the responses of every layer of a ConcatenatedModel side by side (else just the output):
+// the kink indicators look at every layer, because a kink of an inner layer (max-pooling tie, rectifier at 0) can be invisible in
+// the final output (e.g. a softmax only sees differences)
+static std::size_t g_layers = 0;
+static void evalAll(M& m, RealMatrix const& X, RealMatrix& out, RealMatrix& all) {
+	boost::shared_ptr<State> st = m.createState(); m.eval(X, out, *st);
+	ConcatenatedModel<RealVector>* c = dynamic_cast<ConcatenatedModel<RealVector>*>(&m);
+	if (!c || g_layers == 0) { all = out; return; }
+	std::size_t w = 0; for (std::size_t i = 0; i < g_layers; ++i) w += c->hiddenResponses(*st, i).size2();
+	all.resize(X.size1(), w); std::size_t p = 0;
+	for (std::size_t i = 0; i < g_layers; ++i) { RealMatrix const& h = c->hiddenResponses(*st, i); for (std::size_t r = 0; r < h.size1(); ++r) for (std::size_t j = 0; j < h.size2(); ++j) all(r, p + j) = h(r, j); p += h.size2(); }
+}
+
 static void probe(M& m, RealVector const& params, RealMatrix const& X, RealMatrix const& C, std::ostream& o) {
 	std::size_t B = X.size1(), nin = X.size2();
 	o << "OK np=" << m.numberOfParameters();
@@ -199,8 +212,8 @@ static void probe(M& m, RealVector const& params, RealMatrix const& X, RealMatri
 	// finite-difference probes: weighted sums at +h, -h, +2h, -2h and two kink indicators taken over ALL output entries
 	// (k1 = max |second difference(h) - second difference(2h)/4|, k2 = max |central quotient(h) - central quotient(2h)|)
 	struct Probe {
-		static void run(M& m, RealMatrix const& X, RealMatrix const& C, RealMatrix const& out0, RealMatrix outs[4], std::vector<double>& f, std::vector<double>& k) {
-			for (int q = 0; q < 4; ++q) f.push_back(wsum(outs[q], C));
+		static void run(RealMatrix const& C, RealMatrix const& out0, RealMatrix vals[4], RealMatrix outs[4], std::vector<double>& f, std::vector<double>& k) {
+			for (int q = 0; q < 4; ++q) f.push_back(wsum(vals[q], C));
 			double k1 = 0, k2 = 0;
 			for (std::size_t i = 0; i < out0.size1(); ++i) for (std::size_t j = 0; j < out0.size2(); ++j) {
 				double d1 = outs[0](i, j) - 2 * out0(i, j) + outs[1](i, j), d2 = outs[2](i, j) - 2 * out0(i, j) + outs[3](i, j);
@@ -212,12 +225,14 @@ static void probe(M& m, RealVector const& params, RealMatrix const& X, RealMatri
 		}
 	};
 	static const double steps[4] = {H, -H, 2 * H, -2 * H};
+	RealMatrix all0, val0; evalAll(m, X, val0, all0);
+	{ double osc = 1; for (std::size_t i = 0; i < all0.size1(); ++i) for (std::size_t j = 0; j < all0.size2(); ++j) if (std::fabs(all0(i, j)) > osc && !std::isinf(all0(i, j))) osc = std::fabs(all0(i, j)); o << " osc=" << hx(osc); }
 	if (hp) {
 		std::vector<double> fp, kp;
 		for (std::size_t i = 0; i < params.size(); ++i) {
-			RealMatrix outs[4];
-			for (int q = 0; q < 4; ++q) { RealVector p = params; p(i) += steps[q]; m.setParameterVector(p); boost::shared_ptr<State> s2 = m.createState(); m.eval(X, outs[q], *s2); }
-			Probe::run(m, X, C, es, outs, fp, kp);
+			RealMatrix outs[4], vals[4];
+			for (int q = 0; q < 4; ++q) { RealVector p = params; p(i) += steps[q]; m.setParameterVector(p); evalAll(m, X, vals[q], outs[q]); }
+			Probe::run(C, all0, vals, outs, fp, kp);
 		}
 		m.setParameterVector(params);
 		put(o, "fp", fp); put(o, "kp", kp);
@@ -225,9 +240,9 @@ static void probe(M& m, RealVector const& params, RealMatrix const& X, RealMatri
 	if (hi) {
 		std::vector<double> fi, ki;
 		for (std::size_t r = 0; r < B; ++r) for (std::size_t j = 0; j < nin; ++j) {
-			RealMatrix outs[4];
-			for (int q = 0; q < 4; ++q) { RealMatrix Xp = X; Xp(r, j) += steps[q]; boost::shared_ptr<State> s2 = m.createState(); m.eval(Xp, outs[q], *s2); }
-			Probe::run(m, X, C, es, outs, fi, ki);
+			RealMatrix outs[4], vals[4];
+			for (int q = 0; q < 4; ++q) { RealMatrix Xp = X; Xp(r, j) += steps[q]; evalAll(m, Xp, vals[q], outs[q]); }
+			Probe::run(C, all0, vals, outs, fi, ki);
 		}
 		put(o, "fi", fi); put(o, "ki", ki);
 	}
@@ -274,7 +289,8 @@ int main(int argc, char** argv) {
 			for (std::size_t i = 0; i < B; ++i) for (std::size_t j = 0; j < nin; ++j) X(i, j) = tx.num();
 			if (ts.t.size() && ts.t[0] == "CLS") { ts.str(); probeCls(ts, params, X, o); }
 			else {
-				Pool pool; M* m = parseModel(ts, pool);
+				Pool pool; g_layers = (ts.t.size() > 1 && ts.t[0] == "NET") ? (std::size_t) std::strtoull(ts.t[1].c_str(), 0, 10) : 0;
+				M* m = parseModel(ts, pool);
 				std::size_t nout = m->outputShape().numElements();
 				if (seg.size() < 4) throw std::runtime_error("need coefficients");
 				Tok tc(seg[3]); std::vector<double> cv; while (!tc.done()) cv.push_back(tc.num());
